@@ -839,7 +839,7 @@ CKEYWORDS = {'auto', 'break', 'case', 'char', 'const', 'continue', 'default', 'd
 
 # environment table: functions with built-in meaning. value = C body template or special marker
 ENV_NOOP_VOID = {
-    '_ZNSt8ios_base4InitC1Ev', '_ZNSt8ios_base4InitD1Ev', '__cxa_guard_release', '__cxa_guard_abort',
+    '_ZNSt8ios_base4InitC1Ev', '_ZNSt8ios_base4InitD1Ev', '__cxa_guard_abort',
     '_ZNSt6localeD1Ev', '_ZNSt8ios_baseD2Ev',
 }
 ENV_RET0 = {'__cxa_atexit', '__cxa_thread_atexit'}
@@ -1434,6 +1434,8 @@ class Emitter:
             return sig + ';', sigd + '{ return 0; }'
         if name == '__cxa_guard_acquire':
             return sig + ';', sigd + '{ return *(uint8_t*)a0 == 0; }'
+        if name == '__cxa_guard_release':
+            return sig + ';', sigd + '{ *(uint8_t*)a0 = 1; }'
         if name in ENV_ABORT:
             return None, None  # handled at call sites
         if name in ENV_NEW or name in ENV_DELETE or name in ENV_LIBC:
